@@ -26,6 +26,10 @@ GOENV.update({"GOFLAGS": "-mod=mod", "GOPROXY": "off", "GOSUMDB": "off", "GOTOOL
 GO = "go1.26"
 
 
+import threading
+_dir_lock = threading.Lock()
+
+
 class MachineryError(Exception):
     """Something in the checking machinery failed (exit 2, never a verdict)."""
 
@@ -124,7 +128,10 @@ class Ctx:
     def tlc_prepare(self, module, mc_body, cfg, name=None, extends=None):
         """Create a scratch dir with all specs, MC_<name>.tla (EXTENDS module) and its cfg."""
         name = name or module
-        d = self.tmp("tlc_" + name + "_" + str(len(os.listdir(self.scratch))))
+        with _dir_lock:
+            self._ndirs = getattr(self, "_ndirs", 0) + 1
+            n = self._ndirs
+        d = self.tmp("tlc_%s_%d" % (name, n))
         for f in os.listdir(SPEC):
             if f.endswith(".tla"):
                 shutil.copy(os.path.join(SPEC, f), d)
